@@ -936,41 +936,52 @@ def gen_model_tasks(chk, gen_sets):
 
 
 def run_models_mc(chk):
-    """(M) runs; returns the TLC-generated master sets."""
+    """(M) runs (concurrently: they are independent); returns the TLC-generated master sets."""
+    from concurrent.futures import ThreadPoolExecutor
+
     tier = chk.tier
+    quick = tier == "quick"
+    jobs = [("MC_Rat", "MC_Rat"),
+            ("MC_Tent", "MC_Tent" if quick else "MC_Tent_thorough"),
+            ("MC_Model", "MC_Model1"),
+            ("MC_Model", "MC_Model2" if quick else "MC_Model2_thorough"),
+            ("MC_IUP", "MC_IUP" if quick else "MC_IUP_thorough"),
+            ("MC_VarStore", "MC_VarStore" if quick else "MC_VarStore_thorough")]
+    if not quick:
+        jobs.append(("MC_VarStore", "MC_VarStore_vals"))
+
+    def one(job):
+        k, (mod, cfg) = job
+        time.sleep(0.4 * k)  # chk.tlc numbers its scratch directories at entry
+        return chk.tlc(mod, cfg=cfg, label=cfg, timeout=2400, workers=8)
+
+    with ThreadPoolExecutor(len(jobs)) as ex:
+        res = dict(zip([c for _, c in jobs], ex.map(one, enumerate(jobs))))
     notes = {}
-    r = chk.tlc("MC_Rat", label="MC_Rat", timeout=600, workers=4)
-    chk.log("MC_Rat: %d states" % r.distinct)
-    r = chk.tlc("MC_Tent", cfg="MC_Tent" if tier == "quick" else "MC_Tent_thorough", label="MC_Tent", timeout=1500)
+    for cfg, r in res.items():
+        chk.log("%s: %d states in %.0fs" % (cfg, r.distinct, r.wall))
+    r = res[jobs[1][1]]
     cases = sorted({p[0] for p in r.prints.get("CASE", [])})
     want = {"mirror", "1", "2", "3a1", "3a2", "4", "4-peak-at-max", "1neg", "2neg"}
     if set(cases) != want:
         raise MachineryError("MC_Tent: cases of the analysis not all exercised: %s" % sorted(want - set(cases)))
     notes["MC_Tent_cases_fired"] = cases
-    chk.log("MC_Tent: %d states, cases fired: %s" % (r.distinct, cases))
     gen = []
     masks = 0
-    for cfg in ("MC_Model1", "MC_Model2" if tier == "quick" else "MC_Model2_thorough"):
-        r = chk.tlc("MC_Model", cfg=cfg, label=cfg, timeout=1500)
+    for cfg in (jobs[2][1], jobs[3][1]):
         D = 4 if cfg == "MC_Model1" else 2
-        for p in r.prints.get("GEN", []):
+        for p in res[cfg].prints.get("GEN", []):
             gen.append((sorted(tuple(x) for x in json.loads(p[0])), D))
             masks |= p[1]
-        chk.log("%s: %d states" % (cfg, r.distinct))
     if masks & 0b110111 != 0b110111:
         raise MachineryError("MC_Model: box-splitting branches not all exercised (mask %d)" % masks)
     notes["MC_Model_branch_mask"] = masks
-    r = chk.tlc("MC_IUP", cfg="MC_IUP" if tier == "quick" else "MC_IUP_thorough", label="MC_IUP", timeout=1500)
-    cases = sorted({p[0] for p in r.prints.get("CASE", [])})
+    cases = sorted({p[0] for p in res[jobs[4][1]].prints.get("CASE", [])})
     want = {"no-reference", "explicit", "single-reference", "wrap-around", "same-coord-same-delta",
             "same-coord-diff-delta", "at-or-below-lower", "at-or-above-upper", "between"}
     if set(cases) != want:
         raise MachineryError("MC_IUP: cases not all exercised: %s" % sorted(want - set(cases)))
     notes["MC_IUP_cases_fired"] = cases
-    chk.log("MC_IUP: %d states" % r.distinct)
-    for cfg in (("MC_VarStore",) if tier == "quick" else ("MC_VarStore_thorough", "MC_VarStore_vals")):
-        r = chk.tlc("MC_VarStore", cfg=cfg, label=cfg, timeout=1800)
-        chk.log("%s: %d states" % (cfg, r.distinct))
     if tier == "thorough":
         # TLC's own expression coverage of the semantic modules on the small configurations
         zero = {}
@@ -1042,8 +1053,18 @@ def judge_and_report(chk, traces):
         if kk not in seen and nontrivial_key(t) is not None:
             seen.add(kk)
             chk.sample(describe(t), limit=12)
-    # big records first in their own chunks keeps TLC's JSON parsing bounded
-    rej = chk.judge("Trace_C09", real, chunk=45000, timeout=2400, workers=16)
+    # two interleaved halves judged by two concurrent TLC runs (initial states are parsed on one thread each)
+    if len(real) > 4000:
+        from concurrent.futures import ThreadPoolExecutor
+
+        def half(k):
+            time.sleep(0.5 * k)
+            return chk.judge("Trace_C09", real[k::2], chunk=45000, timeout=3000, workers=8)
+
+        with ThreadPoolExecutor(2) as ex:
+            rej = [x for part in ex.map(half, (0, 1)) for x in part]
+    else:
+        rej = chk.judge("Trace_C09", real, chunk=45000, timeout=2400, workers=16)
     notes = {}
     nskip = 0
     for t, clause in rej:
